@@ -31,6 +31,7 @@ std::string describe_live(size_t max_items = 8);
 size_t block_size(const void *p);
 // the next release of p must find all `size` bytes zero (secure variants)
 void expect_zero_on_release(const void *p);
+void clear_expect_zero(const void *p);
 // every release must find its block zero-filled (used by C01 file harness on failure paths)
 void set_require_zero_all(bool on);
 uint64_t zero_checked_releases();
